@@ -107,7 +107,7 @@ def step (s : St) (ws : List String) : St × String :=
        let e := env s
        (s, showOutcome e.store (serveHTTP e (m == "GET" || m == "HEAD") path via asm))
      | _, _, _, _ => (s, "bad-op"))
-  | ["guard", ht, internal] =>
+  | "guard" :: ht :: internal :: _ =>
     (match boolArg internal with
      | some i => (s, showGuard (installedGuard Gen.authHandlerTypes (htypeArg ht) i))
      | none => (s, "bad-op"))
@@ -117,7 +117,7 @@ def step (s : St) (ws : List String) : St × String :=
        (s, match guardPasses (installedGuard Gen.authHandlerTypes (htypeArg ht) i) c with
            | some true => "pass" | some false => "401" | none => "handler")
      | _, _ => (s, "bad-op"))
-  | ["fixed", path] =>
+  | "fixed" :: path :: _ =>
     (s, match Gen.fixedEndpoints.find? (fun p => p.1 == path) with
         | some (_, true) => "auth" | some (_, false) => "open" | none => "none")
   | _ => (s, "bad-op")
